@@ -100,6 +100,12 @@ func TestVP_C31_Pause(t *testing.T) {
 		armedAt := map[string]time.Time{}
 		armedK := map[string]int{}
 		judged := map[string]int{} // number of starts of addr already judged
+		type vpArm struct {
+			at  time.Time
+			min time.Duration
+		}
+		prevArm := map[string]vpArm{} // arm replaced by a later Schedule whose timer may already have fired
+		overtaken := 0
 		judge := func() {
 			h.mu.Lock()
 			starts := append([]vpC31Start(nil), h.starts...)
@@ -115,6 +121,15 @@ func TestVP_C31_Pause(t *testing.T) {
 					want := vpC31Delay(cfg, armedK[s.addr])
 					min := time.Duration(float64(want)*(1-cfg.Jitter)) - time.Millisecond
 					if gap := s.at.Sub(at); gap < min {
+						// A Schedule call for an address that was already armed stops the old timer;
+						// a timer that had already fired by then still runs its attempt (it was
+						// waiting for the lock Schedule held). That attempt is judged against the
+						// arm it belongs to, and the new arm stays outstanding.
+						if pv, ok := prevArm[s.addr]; ok && s.at.Sub(pv.at) >= pv.min && s.at.Before(at.Add(min)) {
+							delete(prevArm, s.addr)
+							overtaken++
+							continue
+						}
 						t.Fatalf("VPFAIL C31 attempt %d for %s started %v after it was armed; backoff %v with jitter %.1f allows no less than %v\n  config %+v\n  history: %s", armedK[s.addr], s.addr, gap, want, cfg.Jitter, min, cfg, strings.Join(hist, "; "))
 					}
 					delete(armedAt, s.addr)
@@ -145,6 +160,12 @@ func TestVP_C31_Pause(t *testing.T) {
 				now := time.Now()
 				r.Schedule(a)
 				if !isPaused {
+					if at, ok := armedAt[a]; ok {
+						min := time.Duration(float64(vpC31Delay(cfg, armedK[a]))*(1-cfg.Jitter)) - time.Millisecond
+						if !at.Add(min).After(time.Now()) {
+							prevArm[a] = vpArm{at, min} // could have fired before this call stopped it
+						}
+					}
 					armedAt[a], armedK[a] = now, k
 				}
 			},
@@ -162,6 +183,7 @@ func TestVP_C31_Pause(t *testing.T) {
 				for a := range armedAt {
 					delete(armedAt, a) // timers were stopped
 				}
+				prevArm = map[string]vpArm{}
 				hist = append(hist, fmt.Sprintf("pause(inflight=%v)", fl))
 			},
 			"resume": func(t *rapid.T) {
@@ -215,10 +237,12 @@ func TestVP_C31_Pause(t *testing.T) {
 				if rapid.Bool().Draw(t, "all") {
 					r.ResetAll()
 					armedAt = map[string]time.Time{}
+					prevArm = map[string]vpArm{}
 					hist = append(hist, "resetAll")
 				} else {
 					r.Cancel(a)
 					delete(armedAt, a)
+					delete(prevArm, a)
 					hist = append(hist, "cancel("+a+")")
 				}
 			},
@@ -256,6 +280,9 @@ func TestVP_C31_Pause(t *testing.T) {
 		cls := "no-pause-in-flight"
 		if nt {
 			cls = "pause-while-in-flight-then-failure"
+		}
+		if overtaken > 0 {
+			st.Count("attempts-of-a-timer-overtaken-by-a-later-Schedule(judged against their own arm)", overtaken)
 		}
 		st.Case(fmt.Sprintf("%+v :: %s", cfg, strings.Join(hist, "; ")), nt, cls)
 	})
